@@ -543,3 +543,15 @@ def shrink(c):
     if isinstance(c["filter"], dict) and len(c["filter"]["named"]) > 1:
         for i in range(len(c["filter"]["named"])):
             yield dict(c, filter=dict(c["filter"], named=c["filter"]["named"][:i] + c["filter"]["named"][i + 1:]))
+
+
+# functions of /repo whose executed-line coverage by this run is reported in the evidence
+ANCHORS = [('swh/model/from_disk.py', 'ignore_empty_directories'),
+           ('swh/model/from_disk.py', 'ignore_named_directories'),
+           ('swh/model/from_disk.py', 'Directory.from_disk'),
+           ('swh/model/from_disk.py', 'iter_directory'),
+           ('swh/model/from_disk.py', 'Content.to_model'),
+           ('swh/model/from_disk.py', 'Content.from_file'),
+           ('swh/model/from_disk.py', 'Directory.to_model'),
+           ('swh/model/merkle.py', 'MerkleNode.iter_tree'),
+           ('swh/model/merkle.py', 'MerkleNode._iter_tree')]
